@@ -311,6 +311,13 @@ def _cat() -> List[Edit]:
         E("C14", "model-single-value-wrapped-in-union", "value.py", "    if num == 1:\n        return existing[0]\n    else:\n        return MultiValuedValue(existing)", "    return MultiValuedValue(existing)", "BREAK", "identity-and-singleton"),
         E("C14", "model-empty-unite-returns-any", "value.py", "    if not values:\n        return NO_RETURN_VALUE\n    # Make sure order is consistent", "    if not values:\n        return AnyValue(AnySource.inference)\n    # Make sure order is consistent", "NOALARM"),
         E("C14", "model-annotated-union-loses-metadata", "value.py", "            subvals = [\n                annotate_value(subval, value.metadata) for subval in value.value.vals\n            ]\n        else:\n            subvals = [value]\n        for subval in subvals:\n            try:", "            subvals = list(value.value.vals)\n        else:\n            subvals = [value]\n        for subval in subvals:\n            try:", "BREAK", "union-model::"),
+        E("C20", "model-not-does-not-reverse", "type_evaluation.py", "            ret = self.visit(node.operand)\n            return ret.reverse()", "            ret = self.visit(node.operand)\n            return ret", "BREAK", "evaluator-model::"),
+        E("C20", "model-else-branch-sees-true-narrowing", "type_evaluation.py", "            with self.ctx.narrow_variables(condition.right_varmap):\n                right_result = self.visit_block(node.orelse)", "            with self.ctx.narrow_variables(condition.left_varmap):\n                right_result = self.visit_block(node.orelse)", "BREAK", "evaluator-model::"),
+        E("C20", "model-partial-match-takes-only-true-branch", "type_evaluation.py", "            if condition.right_varmap is not None:\n                return CombinedReturn.make(left_result, right_result)\n            else:\n                return left_result", "            return left_result", "BREAK", "evaluator-model::result"),
+        E("C20", "model-exclude-any-defaults-to-false", "type_evaluation.py", "            exclude_any = True\n            for keyword in node.keywords:", "            exclude_any = False\n            for keyword in node.keywords:", "BREAK", "evaluator-model::"),
+        E("C20", "model-block-continues-after-definite-return", "type_evaluation.py", "            if isinstance(result, Value):\n                return CombinedReturn.make(*possible_returns, result)", "            if isinstance(result, Value):\n                possible_returns.append(result)\n                continue", "BREAK", "evaluator-model::"),
+        E("C20", "model-and-short-circuit-dropped", "type_evaluation.py", "                    if result.left_varmap is None:\n                        # Condition returns False\n                        return ConditionReturn(\n                            right_varmap=result.right_varmap,\n                            condition=ConditionList(active),\n                        )\n                    elif result.right_varmap is None:\n                        # Condition returns True\n                        narrowed_varmap.update(result.left_varmap)", "                    if result.right_varmap is None or result.left_varmap is None:\n                        # Condition returns True\n                        narrowed_varmap.update(result.left_varmap or {})", "BREAK", "evaluator-model::"),
+        E("C20", "keep-model-rename-active", "type_evaluation.py", "        active = []\n        is_and = isinstance(node.op, ast.And)", "        active = list()\n        is_and = isinstance(node.op, ast.And)", "KEEP"),
         E("C16", "keep-reversed-sorted", "node_visitor.py", "lines_to_remove = sorted(lines_to_remove, reverse=True)", "lines_to_remove = list(reversed(sorted(lines_to_remove)))", "KEEP"),
         E("C17", "keep-regex-class-order", "format_strings.py", "(?P<conversion_type>[diouxXeEfFgGcrs%ba])", "(?P<conversion_type>[abcdeEfFgGiorsuxX%])", "KEEP"),
         E("C18", "keep-sort-key-via-locals", "options.py", "        return (\n            not self.from_command_line,  # command line options first\n            self.priority,  # lower priority number first\n            -len(self.applicable_to),  # longest options first\n        )", "        return (\n            not self.from_command_line,\n            self.priority,\n            -len(self.applicable_to),\n        )", "KEEP"),
